@@ -65,6 +65,8 @@ Definition inpool (c : cfg) (ad : N) : bool := (ad / 3) <? fam_size c (ad mod 3)
 Record sess := {
   s_id : N;
   s_bound : bool;       (* IPoE: State == "bound";  PPPoE: Phase == PhaseOpen *)
+  s_rel4 : bool;        (* IPoE: State == "released" — the DHCPv4 lease was released while DHCPv6 is still bound
+                           (unified session mode keeps the session and re-checkpoints it) *)
   s_appr : bool;        (* IPoE AAAApproved *)
   s_crea : bool;        (* IPoE IPoESessionCreated *)
   s_v6b : bool;         (* IPoE IPv6Bound *)
@@ -75,15 +77,15 @@ Record sess := {
   s_swif : N }.         (* IPoESwIfIndex / SwIfIndex *)
 
 Definition set_stamp (r : sess) (t : N) : sess :=
-  {| s_id := s_id r; s_bound := s_bound r; s_appr := s_appr r; s_crea := s_crea r; s_v6b := s_v6b r;
+  {| s_id := s_id r; s_bound := s_bound r; s_rel4 := s_rel4 r; s_appr := s_appr r; s_crea := s_crea r; s_v6b := s_v6b r;
      s_v4 := s_v4 r; s_v6 := s_v6 r; s_pd := s_pd r; s_l4 := s_l4 r; s_b4 := s_b4 r; s_l6 := s_l6 r;
      s_b6 := s_b6 r; s_stamp := Some t; s_swif := s_swif r |}.
 Definition set_appr (r : sess) (b : bool) : sess :=
-  {| s_id := s_id r; s_bound := s_bound r; s_appr := b; s_crea := s_crea r; s_v6b := s_v6b r;
+  {| s_id := s_id r; s_bound := s_bound r; s_rel4 := s_rel4 r; s_appr := b; s_crea := s_crea r; s_v6b := s_v6b r;
      s_v4 := s_v4 r; s_v6 := s_v6 r; s_pd := s_pd r; s_l4 := s_l4 r; s_b4 := s_b4 r; s_l6 := s_l6 r;
      s_b6 := s_b6 r; s_stamp := s_stamp r; s_swif := s_swif r |}.
 Definition set_prog (r : sess) (sw : N) : sess :=    (* dataplane session (re)created *)
-  {| s_id := s_id r; s_bound := s_bound r; s_appr := s_appr r; s_crea := true; s_v6b := s_v6b r;
+  {| s_id := s_id r; s_bound := s_bound r; s_rel4 := s_rel4 r; s_appr := s_appr r; s_crea := true; s_v6b := s_v6b r;
      s_v4 := s_v4 r; s_v6 := s_v6 r; s_pd := s_pd r; s_l4 := s_l4 r; s_b4 := s_b4 r; s_l6 := s_l6 r;
      s_b6 := s_b6 r; s_stamp := s_stamp r; s_swif := sw |}.
 
@@ -177,7 +179,7 @@ Definition dp_prog (k : N) (r : sess) (d : list (N * dpe)) : list (N * dpe) :=
 
 (* ---- operations ---- *)
 Record newspec := {
-  n_id : N; n_bound : bool; n_appr : bool; n_crea : bool; n_v6b : bool;
+  n_id : N; n_bound : bool; n_rel4 : bool; n_appr : bool; n_crea : bool; n_v6b : bool;
   n_a4 : aspec; n_a6 : aspec; n_apd : aspec;
   n_l4 : N; n_b4 : option Z; n_l6 : N; n_b6 : option Z }.
 
@@ -212,7 +214,8 @@ Definition do_new (c : cfg) (s : st) (n : newspec) (o4 o6 opd : option N) : opti
       | None => None
       | Some (apd, l3) =>
         let ip := match c_proto c with IPoE => true | PPPoE => false end in
-        let r0 := {| s_id := n_id n; s_bound := n_bound n; s_appr := ip && n_appr n; s_crea := n_crea n;
+        let r0 := {| s_id := n_id n; s_bound := n_bound n; s_rel4 := ip && n_rel4 n && negb (n_bound n);
+                     s_appr := ip && n_appr n; s_crea := n_crea n;
                      s_v6b := ip && n_v6b n; s_v4 := a4; s_v6 := a6; s_pd := apd; s_l4 := n_l4 n;
                      s_b4 := n_b4 n; s_l6 := n_l6 n; s_b6 := n_b6 n; s_stamp := None; s_swif := 0 |} in
         let '(r, d, nx) :=
